@@ -602,3 +602,97 @@ func lockField(k string) string {
 	}
 	return k
 }
+
+// poolPairing: a session taken from the pool channel is given back on every path - by a deferred
+// send, or by a send between the receive and every return.  A path that keeps the session (an
+// early return on an error, say) shrinks the pool by one each time it is taken; when the pool is
+// empty every further request on the store blocks for ever, and so does Close.
+func (c *Ctx) poolPairing(typ, field string) {
+	isPoolChan := func(v ssa.Value) bool {
+		return hasOrigin(v, func(o string) bool { return o == "field:"+typ+"."+field })
+	}
+	n := 0
+	for _, m := range c.subjects() {
+		if m.Parent() != nil || !strings.HasPrefix(fnKey(m), typ+".") {
+			continue
+		}
+		recvs := receivesFromField(m, typ+"."+field)
+		if len(recvs) == 0 {
+			continue
+		}
+		// Close drains the pool on purpose
+		if m.Name() == "Close" {
+			continue
+		}
+		n++
+		key := fnKey(m) + ":pool-returned"
+		deferred := false
+		instrs(m, func(_ *ssa.BasicBlock, _ int, ins ssa.Instruction) {
+			if d, ok := ins.(*ssa.Defer); ok && ins.Parent() == m {
+				if mc, ok := d.Call.Value.(*ssa.MakeClosure); ok {
+					if f, ok := mc.Fn.(*ssa.Function); ok {
+						for _, b := range f.Blocks {
+							for _, i2 := range b.Instrs {
+								if s, ok := i2.(*ssa.Send); ok && isPoolChan(s.Chan) {
+									deferred = true
+								}
+							}
+						}
+					}
+				}
+			}
+		})
+		if deferred {
+			c.ok(key, m.Pos(), "the session is given back by a deferred send")
+			continue
+		}
+		bad := ""
+		for _, rv := range recvs {
+			ri, ok := rv.(ssa.Instruction)
+			if !ok {
+				continue
+			}
+			type pt struct {
+				b *ssa.BasicBlock
+				i int
+			}
+			seen := map[pt]bool{}
+			work := []pt{{ri.Block(), instrIndex(ri) + 1}}
+			for len(work) > 0 && bad == "" {
+				p := work[len(work)-1]
+				work = work[:len(work)-1]
+				if seen[p] {
+					continue
+				}
+				seen[p] = true
+				stopped := false
+				for k := p.i; k < len(p.b.Instrs); k++ {
+					switch x := p.b.Instrs[k].(type) {
+					case *ssa.Send:
+						if isPoolChan(x.Chan) {
+							stopped = true
+						}
+					case *ssa.Return:
+						bad = c.pos(x.Pos())
+						stopped = true
+					case *ssa.Panic:
+						stopped = true
+					}
+					if stopped {
+						break
+					}
+				}
+				if !stopped {
+					for _, s := range p.b.Succs {
+						work = append(work, pt{s, 0})
+					}
+				}
+			}
+		}
+		c.verdict(bad == "", key, m.Pos(), "the session is sent back to the pool on every path to a return",
+			"the return at "+bad+" is reachable from the receive without the session having been sent back to the pool: each such return shrinks the pool, and once it is empty every request on this store (and Close) blocks for ever")
+	}
+	if n == 0 {
+		c.bad(typ+":pool-returned", 0, "no method of %s takes a session from %s", typ, field)
+	}
+}
